@@ -111,7 +111,11 @@ RECV_ENS = [
     ("links_ok", "all_links_ok()"),
 ]
 RECV_REQ = ["all_links_ok()", "self._connected_node is not None", "frame.ip is not None"]
-contract(f"{S}::SwitchPort.receive_frame", props=["C08", "C06", "C18"], requires=RECV_REQ, ensures=RECV_ENS,
+contract(f"{S}::SwitchPort.receive_frame", props=["C08", "C06", "C18"], requires=RECV_REQ,
+         ensures=RECV_ENS + [
+             # a frame that an enabled port has taken off the wire has crossed the link: it is reported as accepted, so that
+             # Link.transmit_frame keeps it in the link's load, whatever the switch then does with it
+             ("taken_off_the_wire_is_accepted", "implies(old(self.enabled) and old(frame.ip.ttl) - 1 >= 1, result == True)")],
          modifies=["heap"], allocates=True)
 contract(f"{H}::NIC.receive_frame", props=["C08", "C06", "C18"], requires=RECV_REQ,
          ensures=RECV_ENS + [
